@@ -1,10 +1,12 @@
 import BezierVerif.Driver
+import BezierVerif.ModelDriver
 
 namespace Driver
 
 def step (line : String) : String :=
   match words line.trimAscii.toString with
   | "gen" :: rest => handleGen rest
+  | "model" :: name :: rest => ModelDriver.handle name rest
   | "ping" :: _ => "pong"
   | _ => "bad-op"
 
